@@ -36,6 +36,21 @@ def tag_at(gen_lines, line, col):
     return best
 
 
+def item_tags(gen_lines, line):
+    """tags of the contract of the function enclosing `line` (for failures inside a body: loop invariant, call precondition)"""
+    k = line - 1
+    while k >= 0 and not re.match(r"\s*(pub\s+)?(proof\s+|exec\s+)?fn\s", gen_lines[k]):
+        k -= 1
+    tags = []
+    j = max(k, 0)
+    while j < len(gen_lines) and j < line:
+        tags += re.findall(r"/\*@ob\s+([^*]+?)\s*\*/", gen_lines[j])
+        if gen_lines[j].startswith("{") or gen_lines[j].rstrip().endswith("{") and j > k:
+            break
+        j += 1
+    return tags
+
+
 def run(ctx, uname, u):
     t0 = time.time()
     wd = os.path.join(ctx.work, uname)
@@ -113,7 +128,8 @@ def run(ctx, uname, u):
             search = (u.get("search") or {}).get(tag) if tag else None
             if search is None:
                 search = (u.get("search") or {}).get("*")
-            failures.append({"obligation": obl, "props": props, "message": msg, "item": item,
+            serves = [] if tag else item_tags(gen_lines, line)
+            failures.append({"obligation": obl, "props": props, "message": msg, "item": item, "serves": serves,
                              "detail": d.get("rendered", "")[:3000], "search": search,
                              "src": ({"file": it["file"], "lines": it["src_lines"]} if it else None)})
         else:
